@@ -119,7 +119,9 @@ func (p *PostingsList) OrInto(receiver *roaring.Bitmap) {
 // Iterator returns an iterator for this postings list
 func (p *PostingsList) Iterator(includeFreq, includeNorm, includeLocs bool,
 	prealloc segment.PostingsIterator) (segment.PostingsIterator, error) {
-	if p.normBits1Hit == 0 && p.postings == nil {
+	if p.normBits1Hit == 0 && (p.postings == nil || p.postings.IsEmpty()) {
+		// nothing to iterate; a recycled list of an absent term or of an
+		// unknown field keeps its (cleared) bitmap but has no postings data
 		return emptyPostingsIterator, nil
 	}
 
